@@ -144,7 +144,24 @@ def run(F, res, tier):
     fins = {}
     for b, t in eb.calls():
         if callee(t) == PM.P + "finish_node":
-            fins.setdefault(FL.kind_of_operand(eb, d, t["args"][2]), []).append(b)
+            k_ = FL.kind_of_operand(eb, d, t["args"][2])
+            if k_ is not None:
+                fins.setdefault(k_, []).append(b)
+                continue
+            # `let kind = if .. { PIPE } else { BINARY_OP }; finish_node(m, kind)`: one site per assignment of a constant
+            o_ = d.origin_op(t["args"][2])
+            if o_.get("k") == "multi":
+                for dd in o_["defs"]:
+                    if dd[2] != "assign":
+                        continue
+                    rv_ = dd[3]["rv"]
+                    kk = None
+                    if rv_["k"] == "use":
+                        kk = FL.kind_of_operand(eb, d, rv_["op"])
+                    elif rv_["k"] == "agg" and (rv_.get("adt") or "").endswith("SyntaxKind"):
+                        kk = rv_.get("variant")
+                    if kk is not None:
+                        fins.setdefault(kk, []).append(dd[0])
     okp = False
     if "PIPE" in fins and "BINARY_OP" in fins:
         for g in FL.gates(F, eb, fins["PIPE"], d):
